@@ -34,6 +34,21 @@ def runFlowOk (st : St) (c : Call) : St × List String :=
   | "update" :: _ => callUpdate c st mstHook
   | "acc" :: _ => (st, callAcc "" c st.topo.n st.g)
   | "basins" :: _ => (st, callBasins "" st.topo.n st.g st.mask st.isBase)
+  | "snapcall" :: nm :: what :: rest =>
+    let refused (k : Nat) (lbl : String) : List String :=
+      -- a snapshot graph is read-only: the guard must be present in the mutator and the snapshot
+      -- constructed non-writeable
+      if Fs.Gen.writeGuards.getD k false && !Fs.Gen.snapshotWriteable then ["O " ++ lbl ++ " err runtime_error"]
+      else ["O " ++ lbl ++ " ok"]
+    match st.snaps.find? (·.name == nm) with
+    | none => (st, ["O snapcall nosnap"])
+    | some sn =>
+      let pre := "snap:" ++ nm ++ ":"
+      if what == "acc" then (st, callAcc pre { c with toks := "acc" :: rest } st.topo.n sn.g)
+      else if what == "basins" then (st, callBasins pre st.topo.n sn.g sn.mask sn.isBase)
+      else if what == "set_mask" then (st, refused 2 "set_mask")
+      else if what == "set_base" then (st, refused 1 "set_base")
+      else (st, refused 0 "snap_update")
   | _ => (st, ["O model-unsupported"])
 
 def runFlow (st : St) (c : Call) : St × List String :=
